@@ -56,6 +56,8 @@ type r3Note struct {
 	watch string
 	ch    chan struct{}
 	fired bool
+	// round 6: tell when the watched request has been SEEN (it is in flight), not when it has been answered
+	watchSeen bool
 }
 
 var (
@@ -86,6 +88,10 @@ func r3Seen(nt string, answered bool) {
 	step := nt[i+1:]
 	if !answered {
 		n.hits[step]++
+		if n.watchSeen && step == n.watch && !n.fired {
+			n.fired = true
+			close(n.ch)
+		}
 		return
 	}
 	if step == n.watch && !n.fired {
